@@ -412,6 +412,10 @@ func recordH3(r *hk.Run, o h3obs) {
 		r.Fail(hk.Failure{Sig: fmt.Sprintf("sent-after-cancel:h3:%s:%s:after=%s", o.Spec.Name, o.Kind, o.StepName),
 			What: "the request, whose context had ended while it waited for a request stream, was sent once a stream became free", Input: o})
 	}
+	if o.Harness == "" && o.Returned && o.LatePackets > 1 {
+		r.Fail(hk.Failure{Sig: fmt.Sprintf("dial-goes-on:h3:%s:%s:after=%s", o.Spec.Name, o.Kind, o.StepName),
+			What: fmt.Sprintf("the call had returned, yet %d more handshake datagrams were sent between 0.3 s and 1.5 s later: the dial started for the request goes on without it", o.LatePackets), Input: o})
+	}
 	r.Count("h3:" + o.Kind)
 	r.Count("h3:scenario:" + o.Spec.Name)
 	r.Count(fmt.Sprintf("h3:call=%s,body=%s", o.Call, o.Body))
